@@ -14,7 +14,7 @@ PROP = dict(
         dict(name="types", harness="dav", oracle="DAV", args=["-stage", "types"], oracle_args=["c01"]),
         dict(name="rootspell", harness="dav", oracle="DAV", args=["-stage", "rootspell"], oracle_args=["c01"]),
     ],
-    rule=UNIVERSE + "; plus 1,500 (quick) / 20,000 (thorough) seeded random histories of 40 requests over trees of depth <= 3 with names such as 'a b', '%41', 'é', 'x#y?z', '..x'; headers stage: 28 Depth spellings (signs, leading zeros, blanks, case, lists, 'noroot'), 19 Overwrite spellings and 7 Content-Type values on COPY/MOVE/PROPFIND/MKCOL/PUT (and on the methods that ignore them) over two trees; rootspell stage: the served directory written in 8 ways in the configuration (trailing slash, '/.', '//', 'zz/..', inner './' and '//') x every method on 8 paths — the model knows the root as segments, so all must answer as the clean spelling; types stage: a history of GET, HEAD, PROPFIND and PUT over files named with registered, unregistered, upper-case, double, empty and no extensions (and a collection named like a file) holding text, HTML, PDF, PNG, XML, binary and empty content, with raw path spellings: Content-Type and getcontenttype compared; every case line is one (tree before, request) -> (response, tree after) step; non-trivial = every case (each reaches the handler); distinct = by digest of (tree, request)",
+    rule=UNIVERSE + "; plus 1,500 (quick) / 20,000 (thorough) seeded random histories of 40 requests over trees of depth <= 3 with names such as 'a b', '%41', 'é', 'x#y?z', '..x'; headers stage: every PUT / PROPFIND / PROPPATCH / MKCOL body also delivered with unknown length, a Content-Length larger or smaller than the bytes, data returned together with io.EOF, and one byte per Read; 28 Depth spellings (signs, leading zeros, blanks, case, lists, 'noroot'), 19 Overwrite spellings and 7 Content-Type values on COPY/MOVE/PROPFIND/MKCOL/PUT (and on the methods that ignore them) over two trees; rootspell stage: the served directory written in 8 ways in the configuration (trailing slash, '/.', '//', 'zz/..', inner './' and '//') x every method on 8 paths — the model knows the root as segments, so all must answer as the clean spelling; types stage: a history of GET, HEAD, PROPFIND and PUT over files named with registered, unregistered, upper-case, double, empty and no extensions (and a collection named like a file) holding text, HTML, PDF, PNG, XML, binary and empty content, with raw path spellings: Content-Type and getcontenttype compared; every case line is one (tree before, request) -> (response, tree after) step; non-trivial = every case (each reaches the handler); distinct = by digest of (tree, request)",
     exhaustive=True,
     exhaustive_universe="every (tree, request) pair of the bounded universe described in rule",
     trusted_base=DAV_TRUST,
